@@ -41,10 +41,10 @@ def gen_all(cfg):
             scripts.append((f'{na} x {nb}', lines))
     # sizes that do not fit the other operand's size_type / fixed capacity: swap2 must throw and leave both operands untouched
     # (300 and 260 wrap to 44 and 4 in an 8-bit size_type: a narrowed size computation would pass the capacity check)
-    KM = {'U8': 255, 'U16': 65535, 'U32': 2 ** 32 - 1, 'U64': 2 ** 64 - 1}
+    KM = dict(V.ST_MAX)
     lim_a = cfg.n if cfg.fl == 'fixed' else KM[cfg.st]
     lim_b = n2 if f2 == 'fixed' else KM[s2]
-    for big in (260, 300):
+    for big in (130, 200, 260, 300):
         for na, sa in states(cfg.fl, cfg.n)[:3]:
             if lim_b >= big and lim_a < big:
                 lines = emit(sa, False) + ['apr2 0 ' + ','.join(str(1 + i % 90) for i in range(big)), 'sw2 0 0', 'push 0 77', 'pop2 0', 'sw2 0 0', 'new']
@@ -53,6 +53,18 @@ def gen_all(cfg):
             if lim_a >= big and lim_b < big:
                 lines = ['apr 0 ' + ','.join(str(1 + i % 90) for i in range(big))] + emit(sb, True) + ['sw2 0 0', 'push2 0 88', 'pop 0', 'sw2 0 0', 'new']
                 scripts.append((f'huge{big} x {nb}', lines))
+    # a capacity (not a size) that does not fit the other operand's size_type: the heap buffers cannot simply be exchanged although
+    # both SIZES fit (a capacity narrowed into the other size_type would later be handed back to the allocator with a wrong count)
+    if cfg.fl != 'fixed' and f2 != 'fixed':
+        for bigcap in (150, 300):
+          if lim_a < bigcap <= lim_b:
+            for na, sa in states(cfg.fl, cfg.n):
+                lines = emit(sa, False) + ['apr2 0 1,2,3', f'rsv2 0 {bigcap}', 'sw2 0 0', 'push 0 77', 'push2 0 88', 'sw2 0 0', 'shr 0', 'shr2 0', 'sw2 0 0', 'new']
+                scripts.append((f'{na} x bigcap{bigcap}', lines))
+          if lim_b < bigcap <= lim_a:
+            for nb, sb in states(f2, n2):
+                lines = ['apr 0 1,2,3', f'rsv 0 {bigcap}'] + emit(sb, True) + ['sw2 0 0', 'push 0 77', 'push2 0 88', 'sw2 0 0', 'shr 0', 'shr2 0', 'sw2 0 0', 'new']
+                scripts.append((f'bigcap{bigcap} x {nb}', lines))
     return scripts
 
 PAIRS_QUICK = [
